@@ -176,15 +176,22 @@ def coq_make(targets=(), timeout=3000):
     return p.returncode == 0, p.stdout
 
 
-def coqc(path, timeout=600):
-    """Compile one generated file against the built development; returns (ok, output)."""
-    try:
-        p = subprocess.run(["coqc", "-Q", COQ, "Cherab", path], cwd=os.path.dirname(path),
-                           stdout=subprocess.PIPE, stderr=subprocess.STDOUT, text=True, timeout=timeout)
-    except subprocess.TimeoutExpired as e:
-        return False, "TIMEOUT after %ss\n%s" % (timeout, (e.stdout or b"").decode("utf8", "replace")
-                                                 if isinstance(e.stdout, bytes) else (e.stdout or ""))
-    return p.returncode == 0, p.stdout
+def coqc(path, timeout=600, retries=2):
+    """Compile one generated file against the built development; returns (ok, output).
+    A coqc that is killed (e.g. by the kernel's OOM killer when many checks run at once) dies
+    without a Coq error message; such a run says nothing about the file and is retried."""
+    for attempt in range(retries + 1):
+        try:
+            p = subprocess.run(["coqc", "-Q", COQ, "Cherab", path], cwd=os.path.dirname(path),
+                               stdout=subprocess.PIPE, stderr=subprocess.STDOUT, text=True, timeout=timeout)
+        except subprocess.TimeoutExpired as e:
+            return False, "TIMEOUT after %ss\n%s" % (timeout, (e.stdout or b"").decode("utf8", "replace")
+                                                     if isinstance(e.stdout, bytes) else (e.stdout or ""))
+        killed = p.returncode < 0 or (p.returncode != 0 and "Error" not in p.stdout and "error" not in p.stdout)
+        if not killed or attempt == retries:
+            return p.returncode == 0, p.stdout
+        time.sleep(2 + 3 * attempt)
+    return False, ""
 
 
 def coqc_many(paths, timeout=900, jobs=16):
@@ -336,9 +343,11 @@ class Ctx:
                 m = re.search(r"Axioms:\s*(.*)", body, re.S)
                 ax = []
                 if m:
+                    # entries are "name : type" (the type may continue on indented lines) or a name alone
+                    # on its line followed by an indented ": type"
                     for ln in m.group(1).splitlines():
-                        mm = re.match(r"^(\S+)\s*:", ln)
-                        if mm:
+                        mm = re.match(r"^([A-Za-z_][\w.']*)\s*(:.*)?$", ln)
+                        if mm and not ln.startswith(" "):
                             ax.append(mm.group(1))
             self.axioms[name] = ax
             bad = [a for a in ax if a not in STDLIB_AXIOMS and a not in allowed_axioms
